@@ -28,7 +28,11 @@ Outcomes == {"value", "error"}
 \* monitor
 VARIABLES state, word
 MInit == state = "idle" /\ word = [kind |-> "word", w |-> <<>>]
-Call == state = "idle" /\ state' = "called" /\ word' \in Inputs
+\* (Inputs spelled out per length so that TLC enumerates the function sets lazily instead of building one set of millions)
+Call == /\ state = "idle" /\ state' = "called"
+        /\ \/ \E n \in 0..MaxLen : word' \in [kind : {"word"}, w : [1..n -> 1..AlphabetSize]]
+           \/ \E n \in 1..MaxLenK : word' \in [kind : {"word"}, w : {w \in [1..n -> 1..KAlphabetSize] : \E i \in 1..n : w[i] > AlphabetSize}]
+           \/ \E n \in 1..MaxLines : word' \in [kind : {"text"}, w : [1..n -> (1..LineKinds) \X (0..MaxDepth)]]
 Return == state = "called" /\ state' \in {"returned-value", "returned-error"} /\ UNCHANGED word
 MNext == Call \/ Return
 MonitorOK == state \in {"idle", "called", "returned-value", "returned-error"}
